@@ -108,6 +108,20 @@ Theorem C04_to_file_order : forall nchans c t, to_file_index nchans c t = block_
 Proof. exact to_file_order. Qed.
 Print Assumptions C04_to_file_order.
 
+(** FilterbankBlock.to_file (float32 block at the regenerated depth 32, through prep_outfile + cwrite), for EVERY
+    configuration: accepted, written at the declared width, inferred count and values read back *)
+Theorem C04_to_file_roundtrip : forall cfg nchans nsamps h vals, 1 <= nchans -> 1 <= nsamps -> len vals = nsamps * nchans ->
+  Forall (in_dtype F32) vals ->
+  exists f, write_fil cfg to_file_nbits h (mknd F32 vals) = Some f /\ hdr f = h /\
+            8 * datalen f = nsamps * nchans * to_file_nbits /\ read_fil to_file_nbits nchans f = Some (nsamps, vals).
+Proof. exact to_file_roundtrip. Qed.
+Print Assumptions C04_to_file_roundtrip.
+
+(** the pinned tree's cwrite (array handed to tofile as it is), independently of what the source says today *)
+Theorem C04_pinned_cwrite_refuted : WidthRefuted pinned_cfg /\ FilRefuted pinned_cfg.
+Proof. exact pinned_cwrite_refuted. Qed.
+Print Assumptions C04_pinned_cwrite_refuted.
+
 (** ** 3. .tim, .dat, .spec, .fft *)
 
 (** for each of the four regenerated formats: if the writer puts a header in front of the samples exactly when the
@@ -121,6 +135,11 @@ Print Assumptions C04_series_verdict.
 Theorem C04_series_broken_is_violation : forall f, SeriesBroken f -> ~ SeriesOk f.
 Proof. exact series_broken_not_ok. Qed.
 Print Assumptions C04_series_broken_is_violation.
+
+(** the pinned tree's .dat pair (SIGPROC header written by to_dat, not skipped by from_dat) *)
+Theorem C04_pinned_dat_refuted : SeriesBroken pinned_dat.
+Proof. exact pinned_dat_refuted. Qed.
+Print Assumptions C04_pinned_dat_refuted.
 
 (** ** 4. one sample / one array: bytes and back *)
 Theorem C04_sample_roundtrip : forall dt v, in_dtype dt v -> dec dt (enc dt v) = v.
